@@ -44,6 +44,16 @@ type UEntry struct {
 	Mut        bool // the dependency references of this id are spelled as apply-time-mutation substitutions
 	PreOwner   int  // the input manifest already carries an owning-inventory annotation: 1 = another id, 2 = ours
 	Fin        bool // every incarnation carries metadata.finalizers [finalizerName]; nobody removes it
+	Term       bool // per run (Universe.forRun): the object is terminating (deletionTimestamp set) when the run starts
+}
+
+// GCur mirrors u_gcur: kstatus computes Current for the object as a GET returns it during the run.
+// The manifests carry no status, so a Deployment (no replicas observed) and a CustomResourceDefinition
+// (no Established condition) are InProgress; a terminating object is Terminating; every other kind of
+// the harness is Current (ConfigMap / Secret: always ready, the rest: the generic rule).
+func (u UEntry) GCur() bool {
+	k := u.Meta.GroupKind.Kind
+	return !u.Term && k != "Deployment" && k != "CustomResourceDefinition"
 }
 
 // Referable: a dependency annotation can name the identifier (it has a kind and a name).
@@ -59,7 +69,7 @@ func optNat(i int) string {
 }
 
 func (u UEntry) Coq() string {
-	return emit.App("mkUF", u.Kind.Coq(), optNat(u.NsObj), optNat(u.Crd), emit.Bool(u.Fin))
+	return emit.App("mkUF", u.Kind.Coq(), optNat(u.NsObj), optNat(u.Crd), emit.Bool(u.Fin), emit.Bool(u.GCur()))
 }
 
 func (u Universe) Coq() string {
@@ -134,8 +144,9 @@ type LObj struct {
 	Ver    int
 }
 
-func (l LObj) Coq() string {
-	return emit.App("mkL", emit.Nat(l.ID), emit.NatList(l.Deps), emit.Bool(l.BadDep), emit.Bool(l.FInv), emit.Bool(l.Keep), emit.Nat(l.Ver))
+// Coq prints the manifest; mut = its references are spelled as apply-time-mutation substitutions (l_mut).
+func (l LObj) Coq(mut bool) string {
+	return emit.App("mkLM", emit.Nat(l.ID), emit.NatList(l.Deps), emit.Bool(l.BadDep), emit.Bool(l.FInv), emit.Bool(l.Keep), emit.Nat(l.Ver), emit.Bool(mut))
 }
 
 // ---- cluster --------------------------------------------------------------------
@@ -569,7 +580,7 @@ type Scenario struct {
 func (s Scenario) Coq() string {
 	l := make([]string, len(s.Local))
 	for i, o := range s.Local {
-		l[i] = o.Coq()
+		l[i] = o.Coq(o.ID < len(s.Univ) && s.Univ[o.ID].Mut)
 	}
 	return emit.App("mkSc", s.Univ.Coq(), optNat(s.Univ.InvNs()), emit.List(l), s.Opts.Coq(), s.Env.Coq())
 }
@@ -594,6 +605,11 @@ func (s Scenario) Text() string {
 		l = append(l, t)
 	}
 	late := ""
+	for i, e := range s.Univ {
+		if e.Term {
+			late += fmt.Sprintf(" terminating:%d", i)
+		}
+	}
 	for _, x := range s.Late {
 		late += fmt.Sprintf(" late@%d(n%d,o%d)", x.Wait, x.N, x.Off)
 	}
